@@ -18,6 +18,7 @@ all single-bit flips.
 import Golib.Proof.C08Main
 import Golib.Proof.C08Off
 import Golib.Proof.C08AesInv
+import Golib.Proof.C08Trans
 import Golib.Proof.C08GcmInv
 import Golib.Proof.C08AesSpec
 import Golib.Proof.C08GcmSpec
@@ -611,5 +612,63 @@ example :
 /-- and the whole-configuration identity is a sound start: the empty table is `Sound`. -/
 example : Memo.Sound Memo.identFull id ([] : Memo.Table (Bytes × Nat) Memo.GcmCfg) := by
   intro k o h; cases h
+
+/-! ### Regenerated tie (wave 8): the length helpers of `cryptz/aes.go` translated by `go2lean`
+
+`Golib.Gen.Trans.C08.*` are regenerated from the tree under verification on every run
+(`Golib/Gen/TransC08.lean`).  The translated code works on `List (BitVec 8)` (the one Lean type
+of `typez.StrOrBytes`), the model on `Bytes = List Nat`; `absBytes = List.map BitVec.toNat` is
+the abstraction function.  `int` is the unbounded `Int` of the translation; `len & 15` goes
+through the 64-bit two's complement `GoSem.intAnd`, and the ties hold for EVERY length (no
+`len < 2^63` hypothesis: the mask keeps the low 4 bits).
+
+NOT translated (translator frozen; reasons in `tools/trans_targets.json` / the builder's report):
+`PKCS7Padding`, `PKCS7UnPadding` (`return nil, err` with a nil SLICE; `bytes.Repeat`,
+`bytes.Equal` have no GoSem semantics) — their tie stays the sampled correspondence + drift hash. -/
+
+/-- TIE: `AESCBCEncryptLen` = the model's `cbcEncryptLen` of the length, never panics. -/
+theorem c08_trans_AESCBCEncryptLen (plainText : List (BitVec 8)) :
+    Golib.Gen.Trans.C08.AESCBCEncryptLen plainText
+      = .ok ((cbcEncryptLen (absBytes plainText).length : Nat) : Int) :=
+  trans_AESCBCEncryptLen plainText
+
+/-- the property clause restated on the regenerated definition: the reported length is a
+multiple of the block size, STRICTLY larger than `len` (PKCS#7 always pads) and larger by at
+most one block. -/
+theorem c08_trans_AESCBCEncryptLen_spec (plainText : List (BitVec 8)) :
+    ∃ n : Nat, Golib.Gen.Trans.C08.AESCBCEncryptLen plainText = .ok (n : Int) ∧
+      n % 16 = 0 ∧ plainText.length < n ∧ n ≤ plainText.length + 16 := by
+  refine ⟨cbcEncryptLen (absBytes plainText).length, c08_trans_AESCBCEncryptLen plainText, ?_⟩
+  rw [cbcEncryptLen_eq, absBytes_length]
+  omega
+
+/-- TIE: `AESCBCDecryptLen` = `cbcDecryptLen` (= the length). -/
+theorem c08_trans_AESCBCDecryptLen (cipherText : List (BitVec 8)) :
+    Golib.Gen.Trans.C08.AESCBCDecryptLen cipherText
+      = .ok ((cbcDecryptLen (absBytes cipherText).length : Nat) : Int) :=
+  trans_AESCBCDecryptLen cipherText
+
+/-- TIE: `AESGCMEncryptLen` = `gcmEncryptLen` (length + tag size). -/
+theorem c08_trans_AESGCMEncryptLen (plainText : List (BitVec 8)) :
+    Golib.Gen.Trans.C08.AESGCMEncryptLen plainText
+      = .ok ((gcmEncryptLen (absBytes plainText).length : Nat) : Int) :=
+  trans_AESGCMEncryptLen plainText
+
+/-- TIE: `AESGCMDecryptLen` = `gcmDecryptLen` (an `int`: NEGATIVE for inputs shorter than the tag). -/
+theorem c08_trans_AESGCMDecryptLen (cipherText : List (BitVec 8)) :
+    Golib.Gen.Trans.C08.AESGCMDecryptLen cipherText
+      = .ok (gcmDecryptLen (absBytes cipherText).length) :=
+  trans_AESGCMDecryptLen cipherText
+
+/-- Non-vacuity: block boundary (16 ↦ 32, a whole extra block), 17 ↦ 32, empty ↦ 16; the GCM
+decrypt length of a 3-byte input is −13. -/
+example :
+    Golib.Gen.Trans.C08.AESCBCEncryptLen (List.replicate 16 0#8) = .ok 32 ∧
+    Golib.Gen.Trans.C08.AESCBCEncryptLen (List.replicate 17 0#8) = .ok 32 ∧
+    Golib.Gen.Trans.C08.AESCBCEncryptLen [] = .ok 16 ∧
+    Golib.Gen.Trans.C08.AESCBCDecryptLen [1#8, 2#8] = .ok 2 ∧
+    Golib.Gen.Trans.C08.AESGCMEncryptLen [1#8, 2#8] = .ok 18 ∧
+    Golib.Gen.Trans.C08.AESGCMDecryptLen [1#8, 2#8, 3#8] = .ok (-13) := by
+  refine ⟨?_, ?_, ?_, ?_, ?_, ?_⟩ <;> decide +kernel
 
 end Golib.C08
